@@ -333,6 +333,135 @@ func mutantsOf(repo, rel string) []mutant {
 		})
 		return found, line, what
 	})
+	// --- a parameter handed on (stored in a field, returned, passed to a call) is transformed on the way: the "makers and forwarders
+	// pass their arguments unchanged" assumption behind rules that follow a value only to the constructor / wrapper call
+	apply("arg-transform", func(fset *token.FileSet, f *ast.File, k int) (bool, int, string) {
+		idx := 0
+		found, line, what := false, 0, ""
+		for _, d := range f.Decls {
+			fd, ok := d.(*ast.FuncDecl)
+			if !ok || fd.Body == nil || fd.Type.Params == nil {
+				continue
+			}
+			ptype := map[string]string{}
+			for _, fld := range fd.Type.Params.List {
+				for _, nm := range fld.Names {
+					ptype[nm.Name] = exprString(fld.Type)
+				}
+			}
+			if len(ptype) == 0 {
+				continue
+			}
+			transformed := func(id *ast.Ident) ast.Expr {
+				switch t := ptype[id.Name]; {
+				case t == "string":
+					return &ast.BinaryExpr{X: id, Op: token.ADD, Y: &ast.BasicLit{Kind: token.STRING, Value: "\"x\""}}
+				case t == "[]byte":
+					return &ast.SliceExpr{X: id, High: &ast.BinaryExpr{X: &ast.CallExpr{Fun: ast.NewIdent("len"), Args: []ast.Expr{id}}, Op: token.QUO, Y: &ast.BasicLit{Kind: token.INT, Value: "2"}}}
+				case t == "bool":
+					return &ast.UnaryExpr{Op: token.NOT, X: id}
+				case t == "int" || t == "int64" || t == "int32" || t == "int16" || t == "int8" || t == "uint" || t == "uint64" || t == "uint32" || t == "uint16" || t == "uint8" || t == "byte" || t == "float64" || t == "float32":
+					return &ast.BinaryExpr{X: id, Op: token.ADD, Y: &ast.BasicLit{Kind: token.INT, Value: "1"}}
+				case t == "interface{}":
+					return ast.NewIdent("nil")
+				}
+				return nil
+			}
+			try := func(e *ast.Expr, ctx string) {
+				if found {
+					return
+				}
+				id, ok := (*e).(*ast.Ident)
+				if !ok {
+					return
+				}
+				if _, isParam := ptype[id.Name]; !isParam {
+					return
+				}
+				nw := transformed(id)
+				if nw == nil {
+					return
+				}
+				if idx == k {
+					found = true
+					line = fset.Position(id.Pos()).Line
+					what = fmt.Sprintf("%s in %s: %s -> %s", ctx, fd.Name.Name, id.Name, exprString(nw))
+					*e = nw
+					return
+				}
+				idx++
+			}
+			ast.Inspect(fd.Body, func(n ast.Node) bool {
+				if found {
+					return false
+				}
+				switch x := n.(type) {
+				case *ast.FuncLit:
+					return false // parameters may be shadowed
+				case *ast.AssignStmt:
+					if x.Tok == token.ASSIGN && len(x.Lhs) == len(x.Rhs) {
+						for i := range x.Rhs {
+							if _, isSel := x.Lhs[i].(*ast.SelectorExpr); isSel {
+								try(&x.Rhs[i], "stored")
+							}
+						}
+					}
+				case *ast.KeyValueExpr:
+					try(&x.Value, "stored")
+				case *ast.ReturnStmt:
+					for i := range x.Results {
+						try(&x.Results[i], "returned")
+					}
+				case *ast.CallExpr:
+					if isLogCall(x) {
+						return false
+					}
+					for i := range x.Args {
+						try(&x.Args[i], "passed")
+					}
+				}
+				return true
+			})
+			if found {
+				break
+			}
+		}
+		return found, line, what
+	})
+	// --- two adjacent arguments of a call swapped (only variants that still type-check survive the loader: the two have one type)
+	apply("arg-swap", func(fset *token.FileSet, f *ast.File, k int) (bool, int, string) {
+		idx := 0
+		found, line, what := false, 0, ""
+		ast.Inspect(f, func(n ast.Node) bool {
+			if found {
+				return false
+			}
+			call, ok := n.(*ast.CallExpr)
+			if !ok {
+				return true
+			}
+			if isLogCall(call) {
+				return false
+			}
+			for i := 0; i+1 < len(call.Args); i++ {
+				a, b := exprString(call.Args[i]), exprString(call.Args[i+1])
+				if a == b {
+					continue
+				}
+				if idx == k {
+					found = true
+					line = fset.Position(call.Pos()).Line
+					old := oneLine(fset, call)
+					call.Args[i], call.Args[i+1] = call.Args[i+1], call.Args[i]
+					what = fmt.Sprintf("swap args %d,%d: %s", i, i+1, old)
+					return false
+				}
+				idx++
+			}
+			return true
+		})
+		return found, line, what
+	})
 	return out
 }
 
@@ -370,10 +499,35 @@ func mutate(args []string) int {
 	list := fs.Bool("list", false, "only list the variants")
 	files := fs.String("files", "", "comma separated files (default: the property's anchor files)")
 	out := fs.String("out", "", "write the result JSON here (default <verif>/evidence/<prop>.mutation.json)")
+	ops := fs.String("ops", "", "comma separated operators to keep (default: all)")
 	fs.Parse(args[1:])
 
 	var fl []string
-	if *files != "" {
+	if *files == "@lib" {
+		// every hand-written non-test Go file of the library (generated catalogue files, examples and commands excluded)
+		filepath.Walk(*repo, func(path string, info os.FileInfo, err error) error {
+			if err != nil {
+				return nil
+			}
+			rel, _ := filepath.Rel(*repo, path)
+			if info.IsDir() {
+				if strings.HasPrefix(info.Name(), "_") || strings.HasPrefix(info.Name(), ".") || rel == "cmd" || rel == "gen" {
+					return filepath.SkipDir
+				}
+				return nil
+			}
+			if !strings.HasSuffix(rel, ".go") || strings.HasSuffix(rel, "_test.go") {
+				return nil
+			}
+			b, _ := os.ReadFile(path)
+			if bytes.Contains(b[:min(len(b), 200)], []byte("AUTO-GENERATED")) {
+				return nil
+			}
+			fl = append(fl, rel)
+			return nil
+		})
+		sort.Strings(fl)
+	} else if *files != "" {
 		fl = strings.Split(*files, ",")
 	} else if prop == "all" {
 		// union of the anchor files of all properties; every variant is judged by all 20 checks at once
@@ -395,8 +549,18 @@ func mutate(args []string) int {
 		return 2
 	}
 	var ms []mutant
+	keep := map[string]bool{}
+	for _, o := range strings.Split(*ops, ",") {
+		if o != "" {
+			keep[o] = true
+		}
+	}
 	for _, f := range fl {
-		ms = append(ms, mutantsOf(*repo, f)...)
+		for _, m := range mutantsOf(*repo, f) {
+			if len(keep) == 0 || keep[m.Op] {
+				ms = append(ms, m)
+			}
+		}
 	}
 	if *max > 0 && len(ms) > *max {
 		// deterministic thinning
